@@ -85,6 +85,9 @@ func planStmts(p *migrate.Plan) []stmt {
 				if a, ok := mc.(*schema.AddForeignKey); ok && a.F.RefTable != nil {
 					s.refs = append(s.refs, a.F.RefTable.Name)
 				}
+				if a, ok := mc.(*schema.ModifyForeignKey); ok && a.To.RefTable != nil {
+					s.refs = append(s.refs, a.To.RefTable.Name)
+				}
 			}
 		case *schema.DropTable:
 			s.kind, s.tab = "D", src.T.Name
@@ -272,19 +275,20 @@ func shapeSchema(d *dialect, shape int) *schema.Schema {
 		c1, c2, _, p := tab("a_child"), tab("z_child"), tab("m_unrelated"), tab("k_parent")
 		fk(c1, p)
 		fk(c2, p)
-	default: // big: more than a dozen tables
-		n := 10 + shape
-		var chain []*schema.Table
+	default: // big: 16..30 tables, three chains of 3..5 tables spread between unrelated ones (a plan of > 12 statements)
+		n := 16 + 7*(shape-6)
+		var chains [3][]*schema.Table
 		for i := 0; i < n; i++ {
-			switch i {
-			case 1, 4, 8, 11:
-				chain = append(chain, tab(fmt.Sprintf("%c_link%d", 'z'-rune(len(chain)*3), len(chain))))
-			default:
-				tab(fmt.Sprintf("%c%c_unrelated", 'a'+rune((i*7)%26), 'a'+rune(i)))
+			if c := i % 5; c < 3 && len(chains[c]) < 3+c && i%2 == c%2 {
+				chains[c] = append(chains[c], tab(fmt.Sprintf("%c%d_link%02d", 'y'-rune(len(chains[c])*4+c), c, i)))
+			} else {
+				tab(fmt.Sprintf("%c%02d_unrelated", 'a'+rune((i*7)%26), i))
 			}
 		}
-		for i := 0; i+1 < len(chain); i++ {
-			fk(chain[i], chain[i+1])
+		for _, ch := range chains {
+			for i := 0; i+1 < len(ch); i++ {
+				fk(ch[i], ch[i+1])
+			}
 		}
 	}
 	return s
@@ -317,9 +321,9 @@ func declOrders(w *out.W, tier string) {
 			if shape <= 3 {
 				orders = allPerms(len(tabs))
 			} else {
-				n := 10
+				n := 20
 				if tier == "thorough" {
-					n = 60
+					n = 120
 				}
 				id := make([]int, len(tabs))
 				for i := range id {
@@ -396,8 +400,73 @@ func declOrders(w *out.W, tier string) {
 	}
 }
 
+// declModify: a kept table whose key is re-pointed to a table the same change set creates, which references
+// the kept table back (a cycle through a ModifyForeignKey: DetachCycles detaches, only SortChanges can put
+// CREATE TABLE in front of the ALTER), plus an unrelated kept and an unrelated created table -- every declaration order of the current and
+// of the desired schema.
+func declModify(w *out.W) {
+	for _, d := range dialects {
+		if d.name == "sqlite" {
+			continue
+		}
+		build := func(desired bool, order []int) *schema.Schema {
+			s := schema.New(d.schema)
+			mk := func(name string) *schema.Table {
+				t := schema.NewTable(name)
+				id := schema.NewIntColumn("id", d.intT)
+				t.AddColumns(id, schema.NewIntColumn("ref", d.intT))
+				t.SetPrimaryKey(schema.NewPrimaryKey(id))
+				return t
+			}
+			kept, old, unrel, created := mk("k_kept"), mk("z_old_parent"), mk("m_unrelated"), mk("b_new_parent")
+			link := func(sym string, c, p *schema.Table) {
+				c.AddForeignKeys(schema.NewForeignKey(sym).SetTable(c).AddColumns(c.Columns[1]).SetRefTable(p).AddRefColumns(p.Columns[0]))
+			}
+			ts := []*schema.Table{kept, old, unrel}
+			if desired {
+				link("fk_kept", kept, created)
+				link("fk_back", created, kept)
+				ts = append(ts, created, mk("r_unrelated_new"))
+			} else {
+				link("fk_kept", kept, old)
+			}
+			for _, i := range order {
+				if i < len(ts) {
+					s.AddTables(ts[i])
+				}
+			}
+			return s
+		}
+		for fi, fo := range allPerms(3) {
+			for ti, to := range allPerms(5) {
+				id := fmt.Sprintf("decl-modify-%s/f%d/t%d", d.name, fi, ti)
+				from, want := build(false, fo), build(true, to)
+				what := fmt.Sprintf("%s: key of k_kept re-pointed from z_old_parent to the created b_new_parent (which references k_kept); current tables declared in order %v, desired in order %v", d.name, fo, to)
+				changes, err := d.differ.SchemaDiff(from, want)
+				if err != nil {
+					w.Violation(id, "source-perm-rejected", what+": diff: "+trunc(err.Error(), 200))
+					continue
+				}
+				p, err := d.planner.PlanChanges(context.Background(), "p", changes)
+				if err != nil {
+					w.Violation(id, "source-perm-rejected", what+": plan: "+trunc(err.Error(), 200))
+					continue
+				}
+				ps := planStmts(p)
+				w.ImplOnly(id, fmt.Sprintf("%d statements", len(ps)))
+				w.Count("decl-modify:" + d.name)
+				w.NonTrivial(id)
+				if bad := invalidOrder(ps); bad != "" {
+					w.Violation(id, "source-invalid-order", fmt.Sprintf("%s: %s", what, bad))
+				}
+			}
+		}
+	}
+}
+
 func sourceMain(w *out.W, tier string) {
 	declOrders(w, tier)
+	declModify(w)
 	perms := 6
 	if tier == "thorough" {
 		perms = 40
